@@ -7,7 +7,7 @@ From Miller Require Import C14.Value C14.Stack C14.Model C14.Proofs.
 Open Scope Z_scope.
 
 Definition is_expr_task (t : task) : bool :=
-  match t with TEval _ | TEvals _ | TIdx _ _ | TArgs _ _ _ | TMapLit _ _ => true | _ => false end.
+  match t with TEval _ | TEvals _ | TIdx _ _ | TArgs _ _ _ | TMapLit _ _ | THof _ _ _ _ _ _ | TSort _ _ _ _ _ => true | _ => false end.
 
 Definition frame_rel (s s' : astack) : Prop := tl s' = tl s /\ s' <> [].
 
@@ -233,12 +233,55 @@ Proof.
   - unfold ro in H. inversion H; subst. exact E1.
 Qed.
 
+(* a callback invoked by a higher-order function: a named function runs in a frameset of its own, which is popped; a
+   function literal runs in a frame of the current frameset, and the call is inside the fragment only when the enclosing
+   locals come back as they were *)
+Lemma call_values_inv lit name vs st v st' :
+  stk st <> [] -> call_values fns f lit name vs st = Ok (v, st') -> stk st' = stk st.
+Proof.
+  intros Hne H. unfold call_values in H.
+  destruct (negb (Bool.eqb lit (is_lit_name name))); [discriminate|].
+  destruct (find_fn false name (List.length vs) fns) as [fd|]; [|discriminate].
+  destruct lit.
+  - destruct (bind_params (f_params fd) vs (a_push_frame (stk st))) as [s2|]; [|discriminate].
+    destruct (ex f (TBlock (f_body fd)) (set_stk s2 st)) as [[o st3]| | |]; cbn [bind] in H; try discriminate.
+    destruct (top_fset_eqb (a_pop_frame (stk st3)) (stk st)); [|discriminate].
+    destruct (ret_value fd o); [|discriminate]. inversion H; subst. reflexivity.
+  - destruct (bind_params (f_params fd) vs (a_push_set (stk st))) as [s2|] eqn:E2; [|discriminate].
+    assert (F2 : frame_rel (a_push_set (stk st)) s2) by (eapply bind_params_frame; [discriminate|exact E2]).
+    destruct (ex f (TBlock (f_body fd)) (set_stk s2 st)) as [[o st3]| | |] eqn:E3; cbn [bind] in H; try discriminate.
+    apply ex_inv in E3; [|exact HP|reflexivity|simp_stk; exact (proj2 F2)].
+    simp_stk.
+    assert (Hpop : a_pop_set (stk st3) = stk st).
+    { apply pop_after_call; [assumption| |exact (proj2 E3)]. destruct E3 as [E3 _]. destruct F2 as [F2 _]. rewrite E3, F2. reflexivity. }
+    destruct (ret_value fd o); [|discriminate]. inversion H; subst. simp_stk. exact Hpop.
+Qed.
+
+Lemma eval_hof_inv h c lit fn init st r st' :
+  stk st <> [] -> eval_hof fns f h c lit fn init st = Ok (r, st') -> stk st' = stk st.
+Proof.
+  intros Hne H. unfold eval_hof in H.
+  destruct (ev f c st) as [[vc st1]| | |] eqn:E1; cbn [bind] in H; try discriminate.
+  apply ev_inv in E1; [|exact HP|assumption].
+  destruct (negb (fn_resolvable lit fn st1)); [discriminate|].
+  assert (Hi : forall vi st2, match init with Some ie => ev f ie st1 | None => Ok (VAbsent, st1) end = Ok (vi, st2) -> stk st2 = stk st).
+  { intros vi st2 Hi. destruct init as [ie|].
+    - apply ev_inv in Hi; [congruence|exact HP|congruence].
+    - inversion Hi; subst. exact E1. }
+  destruct (match init with Some ie => ev f ie st1 | None => Ok (VAbsent, st1) end) as [[vi st2]| | |] eqn:E2; cbn [bind] in H; try discriminate.
+  specialize (Hi _ _ eq_refl).
+  assert (Hne2 : stk st2 <> []) by congruence.
+  match type of H with (if ?b then _ else _) = _ => destruct b; [destruct (Bool.eqb lit (is_lit_name fn)); discriminate|] end.
+  destruct h; destruct init; try discriminate H; go f HP; simp_stk; congruence.
+Qed.
+
 Lemma eval_expr_inv e st r st' :
   stk st <> [] -> eval_expr fns f e st = Ok (r, st') -> stk st' = stk st.
 Proof.
   intros Hne H. destruct e; cbn [eval_expr] in H;
     try (apply eval_logic_inv in H; assumption);
     try (apply eval_call_inv in H; assumption);
+    try (apply eval_hof_inv in H; assumption);
     go f HP; close.
 Qed.
 
@@ -347,6 +390,12 @@ Proof.
   - stmt_tac.
   - stmt_tac.
   - stmt_tac.
+  - (* SEmitP *) stmt_tac.
+  - (* SEmitLashed *) stmt_tac.
+  - stmt_tac.
+  - stmt_tac.
+  - (* SDump *) destruct e; stmt_tac.
+  - stmt_tac.
 Qed.
 
 End StepInv3.
@@ -379,6 +428,16 @@ Proof.
   - t_stmt.
   - destruct nvs as [|[n v] rest]; t_stmt.
   - destruct entries as [|[k v] more]; [t_stmt|]. destruct keys as [|key krest]; t_stmt.
+  - (* THof *) destruct items as [|item rest]; [t_expr|].
+    destruct (call_values fns f lit fn (hof_args h ismap acc item) st) as [[r0 st1]| | |] eqn:E; cbn [bind] in H; try discriminate.
+    apply (call_values_inv fns f HP) in E; [|assumption].
+    assert (stk st1 <> []) by congruence.
+    destruct (hof_next h ismap acc item r0); t_expr.
+  - (* TSort *) destruct (List.length arr <=? i)%nat; [t_expr|]. destruct j as [|j']; [t_expr|].
+    destruct (call_values fns f lit fn (nth (S j') arr [] ++ nth j' arr []) st) as [[r0 st1]| | |] eqn:E; cbn [bind] in H; try discriminate.
+    apply (call_values_inv fns f HP) in E; [|assumption].
+    assert (stk st1 <> []) by congruence.
+    t_expr.
 Qed.
 
 End StepInv4.
